@@ -5,7 +5,7 @@ DEFAULT = {
     "yield": 22, "sleep": 8, "wait": 6, "set": 3, "forever": 3, "scope": 16, "cancel": 12, "shield": 3,
     "group": 10, "spawn": 10, "start": 0, "catch": 9, "raise": 3, "return": 1, "ntimeout": 0, "ntg": 0,
     "setdl": 0, "max_depth": 4, "max_stmts": 60, "ext": 2, "native_ext": 0, "wrap": 0, "configs": ["S", "S", "E", "U"],
-    "deadlines": True, "patterns": {},
+    "deadlines": True, "patterns": {}, "precancel": 0,
 }
 
 
@@ -89,7 +89,10 @@ def gen_program(g, prof):
                 if prof["deadlines"] and g.chance(25):
                     st["frac"] += 1
                     rel = g.choice([0.5, 1.5, 3.5, 7.5, -1.5]) + 2.0 ** -(st["frac"] + 3)
-                out.append(["scope", name, g.chance(28), rel, block(depth + 1, own_scopes + [name], in_child, enc)])
+                stmt = ["scope", name, g.chance(28), rel, block(depth + 1, own_scopes + [name], in_child, enc)]
+                if prof.get("precancel") and g.chance(prof["precancel"]):
+                    stmt.append(True)
+                out.append(stmt)
             elif k == "group":
                 name = new("g")
                 st["names"].append(name)
